@@ -17,10 +17,15 @@ RULE = ("Shards enumerate the 25 ordered (l_a,l_b) pairs 0..4; Hypothesis draws 
         "(<= 24) is enumerated inside the case.  Oracle: R1 integrals <a|-i d/dx|b> and <a|-i (r x grad)|b> for EVERY "
         "ordered pair (upper, lower and diagonal shell blocks independently), tolerance 1e-8*sqrt(T_aa T_bb) "
         "(momentum) and 1e-8*sqrt(<a|L^2-type scale|a> ...) taken as sqrt(T_aa T_bb)*(1+|r|_a)(1+|r|_b); "
-        "Hermiticity A[a,b,c]=conj(A[b,a,c]); real part zero; block-permutation law under reordering.  "
+        "Hermiticity A[a,b,c]=conj(A[b,a,c]); real part zero; block-permutation law under reordering.  Shell blocks (both "
+        "orientations) are additionally judged element-wise at 1e-9 of the summed magnitudes of the terms of the element (conditioning "
+        "scale of the oracle's expansion) + 1e-13 of the natural scale, so that digits lost on elements far below the natural scale "
+        "are seen.  Sub-check extreme-ratio: a diffuse (0.02-0.3) and a tight (cap(l)/10 .. 300 cap(l)) shell in either order, placed "
+        "at a Gaussian-product prefactor 0.5..1e-4.  "
         "Non-trivial: two shells on different centres with |P_ab| above 1e-6 of the scale and a shell with l>=1.")
-ASSUMPTIONS = ["reference integrals from vf/ref R1/R3/R4"]
+ASSUMPTIONS = ["reference integrals from vf/ref R1/R3/R4", "C08 states no tolerance: every element is judged at 1e-8 of the natural scale, shell-block elements also at 1e-9 of their conditioning scale + 1e-13 of the natural scale (the unchanged library stays below 0.07 of that on 17 000 extreme pairs)"]
 TOL = 1e-8
+COND_TOL, COND_FLOOR = 1e-9, 1e-13  # block-level criterion for elements far below the natural scale (see judge)
 
 
 @st.composite
@@ -29,6 +34,36 @@ def case_st(draw, la, lb):
     n = sum(nfunc(s) for s in shells)
     T = draw(st.none() | gen.transform_matrix(n))
     return {"shells": shells, "transform": T}
+
+
+@st.composite
+def extreme_st(draw, la, lb):
+    """A diffuse and a tight shell (1-2 primitives each) in either order, a few bohr apart (placed at a drawn Gaussian-product
+    prefactor 0.5 .. 1e-4), tight exponents up to 300 x the usual cap for that angular momentum (C08 states no exponent range):
+    the pairs in which transferring angular momentum between the centres would cancel."""
+    def exps(l, tight):
+        k = draw(st.integers(1, 2))
+        if tight:
+            hi = min(1e5, gen.exp_cap(l) * 300.0)
+            return [draw(gen.log_uniform(gen.exp_cap(l) / 10.0, hi)) for _ in range(k)]
+        return [draw(gen.log_uniform(0.02, 0.3)) for _ in range(k)]
+    diffuse_first = draw(st.booleans())
+    ea, eb = exps(la, not diffuse_first), exps(lb, diffuse_first)
+    ca = [[draw(gen.log_uniform(0.3, 2.0))] for _ in ea]
+    cb = [[draw(gen.log_uniform(0.3, 2.0))] for _ in eb]
+    mu = min(ea) * min(eb) / (min(ea) + min(eb))
+    k = draw(st.floats(0.3, 4.0, allow_nan=False))
+    r = (k * 2.302585092994046 / mu) ** 0.5
+    u = [draw(st.floats(-1, 1, allow_nan=False)) for _ in range(3)]
+    un = sum(t * t for t in u) ** 0.5
+    if un < 1e-2:
+        u, un = [0.6, -0.5, 0.62], (0.36 + 0.25 + 0.3844) ** 0.5
+    A = [draw(st.floats(-3, 3, allow_nan=False)) for _ in range(3)]
+    B = [a + r * t / un for a, t in zip(A, u)]
+    types = [draw(st.sampled_from(["cartesian", "spherical"])) for _ in range(2)]
+    shells = [{"l": la, "coord": A, "exps": ea, "coeffs": ca, "type": types[0]},
+              {"l": lb, "coord": B, "exps": eb, "coeffs": cb, "type": types[1]}]
+    return {"shells": shells, "transform": None, "extreme": "diffuse-first" if diffuse_first else "tight-first"}
 
 
 def scales(R):
@@ -41,6 +76,8 @@ def scales(R):
 def judge(case):
     shells = case["shells"]
     v = Verdict(classes=["l%d-l%d" % (shells[0]["l"], shells[1]["l"])])
+    if case.get("extreme"):
+        v.classes.append(case["extreme"])
     R = r3.refs(shells)
     bas = mk_basis(shells)
     sp, sl = scales(R)
@@ -79,6 +116,21 @@ def judge(case):
         d, at = maxdev(b01, w01, bs)
         if not d <= TOL:
             return v.fail(f"{cls.__name__}.construct_array_contraction(s0,s1) deviates by {d:.3e} at {at}")
+        # elements that are small against the natural scale (far-apart or tight/diffuse pairs) are judged on their own terms: the
+        # sum of the magnitudes of everything that is added up for the element (conditioning scale of the oracle's expansion about
+        # the product centre, coordinates' own rounding included) - an evaluation that loses more than 1e-9 of that has lost digits
+        # through its own cancellations (e.g. angular momentum transferred between distant centres)
+        blockfn = r3.momentum_block if cls is MomentumIntegral else r3.angmom_block
+        cond = r3.condition(blockfn, R[0], R[1], normalised=False)
+        d, at = maxdev(b01, w01, COND_TOL * cond + COND_FLOOR * bs)
+        v.info[name[:3] + "_cond_dev"] = d
+        if not d <= 1.0:
+            return v.fail(f"{cls.__name__}.construct_array_contraction(s0,s1): element {at} = {w01[at]!r} is off by {abs(b01[at] - w01[at]):.3e}, "
+                          f"{d:.2e} x (1e-9 of the summed magnitudes of its terms + 1e-13 of the natural scale)")
+        d, at = maxdev(b10, np.conj(np.transpose(w01, (2, 3, 0, 1, 4))), np.transpose(COND_TOL * cond + COND_FLOOR * bs, (2, 3, 0, 1, 4)))
+        if not d <= 1.0:
+            return v.fail(f"{cls.__name__}.construct_array_contraction(s1,s0): element {at} is off by {d:.2e} x (1e-9 of the summed "
+                          f"magnitudes of its terms + 1e-13 of the natural scale)")
         d, at = maxdev(b10, np.conj(np.transpose(w01, (2, 3, 0, 1, 4))), np.transpose(bs, (2, 3, 0, 1, 4)))
         if not d <= TOL:
             return v.fail(f"{cls.__name__}.construct_array_contraction(s1,s0) is not the adjoint of (s0,s1): {d:.3e} at {at}")
@@ -123,5 +175,12 @@ def shards(tier):
             for la in range(5) for lb in range(5)]
 
 
-SUBCHECKS = [SubCheck("momenta", judge, shards, strategy=lambda sh: case_st(sh["la"], sh["lb"]))]
+def shards_extreme(tier):
+    n = 2 if tier == "quick" else 40
+    return [{"id": f"{la}{lb}", "la": la, "lb": lb, "n": n, "cost": n * (1 + la + lb)} for la in range(5) for lb in range(5)]
+
+
+SUBCHECKS = [SubCheck("momenta", judge, shards, strategy=lambda sh: case_st(sh["la"], sh["lb"])),
+             SubCheck("extreme-ratio", judge, shards_extreme, strategy=lambda sh: extreme_st(sh["la"], sh["lb"]))]
+EXPECTED_CLASSES = ["extreme-ratio/diffuse-first", "extreme-ratio/tight-first"]
 EXHAUSTIVE = {"l_pairs": "all 25 ordered (l_a,l_b) in 0..4", "orderings": "every ordering of the (2-4) shells of each case"}
